@@ -18,7 +18,7 @@ using namespace photon;
 #endif
 
 // separate objects (not an array): the solver keeps every field of every thread as its own variable
-static Raw<thread> TH0, TH1, TH2, TH3, TH4, TH5, TH6, TH7, TH8, TH9, TH10;
+static Raw<thread> TH0, TH1, TH2, TH3, TH4, TH5, TH6, TH7, TH8, TH9, TH10, TH11, TH12;
 static Raw<SleepQueue> SQs;
 static uint64_t ts0[NOBJ];      // keys before the step (the heap must never change a key)
 static bool mem0[NOBJ];         // membership before the step
@@ -28,7 +28,7 @@ static inline thread* T(int i)
 {
     switch (i) {
     case 0: return &TH0.v; case 1: return &TH1.v; case 2: return &TH2.v; case 3: return &TH3.v; case 4: return &TH4.v; case 5: return &TH5.v;
-    case 6: return &TH6.v; case 7: return &TH7.v; case 8: return &TH8.v; case 9: return &TH9.v; default: return &TH10.v;
+    case 6: return &TH6.v; case 7: return &TH7.v; case 8: return &TH8.v; case 9: return &TH9.v; case 10: return &TH10.v; case 11: return &TH11.v; default: return &TH12.v;
     }
 }
 
@@ -187,6 +187,15 @@ void harness_sleepq()
 #endif
 #if NMAX >= 10
     case 10: step(10); break;
+#endif
+#if NMAX >= 11
+    case 11: step(11); break;
+#endif
+#if NMAX >= 12
+    case 12: step(12); break;
+#endif
+#if NMAX > 12
+#error "NMAX <= 12 (add thread objects and cases)"
 #endif
     }
 #if OP == 0
